@@ -50,6 +50,8 @@ type Run struct {
 	Herr      string
 	Overshoot time.Duration // worst scheduling delay observed by the watchdog
 	fixedIPv4 bool
+	regMu     sync.Mutex
+	reg       map[[2]int]bool // what the user of x has registered (persisted pairing, restored after a restart)
 }
 
 // overshoot watchdog: measures how late a 10 ms sleep wakes up
@@ -74,7 +76,7 @@ func watchdog(stop chan struct{}, worst *time.Duration, mu *sync.Mutex) {
 
 // Execute builds the fabric and runs the ops. The caller closes r.F.
 func Execute(sc Scenario) *Run {
-	r := &Run{F: NewFabric(), fixedIPv4: sc.FixedIPv4}
+	r := &Run{F: NewFabric(), fixedIPv4: sc.FixedIPv4, reg: map[[2]int]bool{}}
 	f := r.F
 	for i := 0; i < sc.N; i++ {
 		if _, err := f.AddNode(fmt.Sprintf("N%d", i), nil); err != nil {
@@ -155,7 +157,7 @@ func (r *Run) apply(op HubOp) bool {
 	}
 	nx, ny := f.Nodes[op.X], f.Nodes[op.Y]
 	ySKI := SpellSKI(ny.SKI, op.Spell)
-	hubOp := op.K == "register" || op.K == "unregister" || op.K == "cancel" || op.K == "disconnect" || op.K == "shutdown"
+	hubOp := op.K == "register" || op.K == "unregister" || op.K == "cancel" || op.K == "disconnect" || op.K == "shutdown" || op.K == "restart"
 	if hubOp && nx.IsDown() {
 		return false
 	}
@@ -168,11 +170,34 @@ func (r *Run) apply(op HubOp) bool {
 			nx.Hub.ServiceForSKI(ny.SKI).SetIPv4("127.0.0.1")
 		}
 		nx.Hub.RegisterRemoteSKI(ySKI)
+		r.regMu.Lock()
+		r.reg[[2]int{op.X, op.Y}] = true
+		r.regMu.Unlock()
+	case "restart":
+		// the application is stopped and started again with the same certificate; it restores its
+		// persisted pairings before starting the hub, as the API documents
+		nx.Hub.Shutdown()
+		nx.down.Store(true)
+		time.Sleep(time.Duration(50+op.WaitMs/4) * time.Millisecond)
+		r.regMu.Lock()
+		var paired []int
+		for k, v := range r.reg {
+			if v && k[0] == op.X {
+				paired = append(paired, k[1])
+			}
+		}
+		r.regMu.Unlock()
+		if err := f.RestartNode(nx, paired); err != nil {
+			return false
+		}
 	case "unregister":
 		if op.X == op.Y {
 			return false
 		}
 		nx.Hub.UnregisterRemoteSKI(ySKI)
+		r.regMu.Lock()
+		r.reg[[2]int{op.X, op.Y}] = false
+		r.regMu.Unlock()
 	case "cancel":
 		if op.X == op.Y {
 			return false
